@@ -68,6 +68,12 @@ def search_from(rng, vocab, items, allow_gt=False):
             segs[i] = segs[i] + ',' + rng.choice(NAMES + ['ma', 'v001', 'w'])
         elif r < 0.5 and segs[i]:
             segs[i] = segs[i][0] + '*'
+        elif r < 0.56 and len(segs[i]) >= 3 and not any(ch in segs[i] for ch in '*>,?:'):
+            # a star inside a value: head*tail, the two taken from the value itself and possibly overlapping in it ("ophel*lia" does
+            # not match "ophelia": the star stands for at least nothing, never for a negative length)
+            w = segs[i]
+            k_, j_ = rng.randrange(1, len(w)), rng.randrange(1, len(w))
+            segs[i] = w[:k_] + '*' + w[j_:]
     if rng.random() < 0.3 and len(segs) >= 2:
         i = rng.randrange(1, len(segs)); j = rng.randrange(i, len(segs) + 1)
         segs = segs[:i] + ['**'] + segs[j:]
